@@ -468,6 +468,12 @@ class BaseStackTransformation(Transformation):
             if isinstance(var, Array) and var not in arguments
         ]
 
+        # Filter out pointers and allocatables (their storage is managed explicitly)
+        temporary_arrays = [
+            var for var in temporary_arrays
+            if not (var.type.pointer or var.type.allocatable)
+        ]
+
         # Filter out unused vars
         with dataflow_analysis_attached(routine):
             temporary_arrays = [
